@@ -744,4 +744,230 @@ theorem fh_laws (kind : FhKind) : HeaderMapLaws (fh kind) (fhInv kind) (fun k =>
   del_same := fun m k hm hk => BlankEq.of_eq (fhObs_del_same kind m k hm hk)
   del_other := fun m k k' hm hk hn => fhObs_del_other kind m k k' hm hk hn
 
+/-! ### the observation is what the map prints -/
+
+theorem find_filterMap_keys (ks : List String) (g : String → Option String) (nk : String) (hd : ks.Nodup) :
+    (ks.filterMap (fhShowSingle g)).find? (fun e => e.1 == nk) =
+      if ks.contains nk then ((g nk).filter (· != "")).map (fun v => (nk, v)) else none := by
+  induction ks with
+  | nil => rfl
+  | cons a r ih =>
+    simp only [List.nodup_cons] at hd
+    have ih' := ih hd.2
+    rw [List.filterMap_cons, List.contains_cons]
+    unfold fhShowSingle at ih' ⊢
+    by_cases ha : a = nk
+    · subst ha
+      have hnr : r.contains a = false := by simpa using hd.1
+      rw [hnr] at ih'
+      simp only [Bool.false_eq_true, if_false] at ih'
+      simp only [beq_self_eq_true, Bool.true_or, if_true]
+      cases hg : g a with
+      | none => simp only [Option.filter, Option.map]; exact ih'
+      | some v =>
+        by_cases hv : v = ""
+        · subst hv
+          simp only [beq_self_eq_true, if_true]
+          rw [ih']; rfl
+        · have hb : (v == "") = false := by simpa using hv
+          have hb' : (v != "") = true := by simpa using hv
+          simp only [hb, Bool.false_eq_true, if_false, List.find?_cons, beq_self_eq_true, Option.filter, hb', if_true, Option.map]
+    · have hb : (nk == a) = false := by simpa using fun h => ha h.symm
+      have hb2 : (a == nk) = false := by simpa using ha
+      simp only [hb, Bool.false_or]
+      cases hg : g a with
+      | none => exact ih'
+      | some v =>
+        by_cases hv : v = ""
+        · subst hv
+          simp only [beq_self_eq_true, if_true]
+          exact ih'
+        · have hbv : (v == "") = false := by simpa using hv
+          simp only [hbv, Bool.false_eq_true, if_false, List.find?_cons, hb2]
+          exact ih'
+
+theorem singles_nodup (kind : FhKind) : kind.singles.Nodup := by cases kind <;> decide
+
+theorem cookieKey_not_single (kind : FhKind) : kind.singles.contains kind.cookieKey = false := by cases kind <;> decide
+
+/-- for a plain name, the first line the printed fasthttp header shows under it is `fhObs` -/
+theorem fh_look_eq_obs (kind : FhKind) (m : Fh) (k : String) (hi : fhInv kind m) (h : fhPlain kind k = true) :
+    look (fh kind) m k = fhObs kind m k := by
+  obtain ⟨hc, _⟩ := fhPlain_iff kind k h
+  have hck : ¬ kind.cookieKey = fhNorm k := fun e => by simp [e] at hc
+  -- the ordinary lines, with or without the request's Cookie lines, show the same under a name that is not Cookie
+  have hcol : ∀ (hh : List (String × String)), kind = .request →
+      (hh.filter (fun e => !(e.1 == "Cookie"))).find? (fun e => e.1 == fhNorm k) = hh.find? (fun e => e.1 == fhNorm k) := by
+    intro hh hk
+    apply find_filter_ne_other
+    subst hk
+    exact hck
+  have hnone : kind.singles.contains (fhNorm k) = true → m.h.find? (fun e => e.1 == fhNorm k) = none := by
+    intro hs
+    rw [List.find?_eq_none]
+    intro e he hek
+    have := hi.1 e he
+    simp only [beq_iff_eq] at hek
+    rw [hek, hs] at this
+    exact absurd this (by decide)
+  unfold look fhObs
+  simp only [fh, fhRange]
+  cases kind with
+  | request =>
+    simp only [List.find?_append, find_filterMap_keys _ _ _ (singles_nodup .request)]
+    have hcl : ∀ (c : List (String × String)),
+        (if c.isEmpty then ([] : List (String × String)) else [("Cookie", showCookies c)]).find? (fun e => e.1 == fhNorm k) = none := by
+      intro c
+      split
+      · rfl
+      · have : ("Cookie" == fhNorm k) = false := by simpa [FhKind.cookieKey] using hck
+        simp [List.find?_cons, this]
+    rw [hcl]
+    have hh : (fhCollect m).h.find? (fun e => e.1 == fhNorm k) = m.h.find? (fun e => e.1 == fhNorm k) := by
+      unfold fhCollect
+      split
+      · rfl
+      · exact hcol _ rfl
+    rw [hh]
+    by_cases hs : FhKind.request.singles.contains (fhNorm k) = true
+    · simp only [hs, if_true, hnone hs]
+      cases ((fhSingle .request m (fhNorm k)).filter (· != "")) <;> simp
+    · simp only [hs, Bool.false_eq_true, if_false]
+      simp
+  | response =>
+    simp only [List.find?_append, find_filterMap_keys _ _ _ (singles_nodup .response)]
+    have hcl : (m.cookies.map (fun c => ("Set-Cookie", c.2))).find? (fun e => e.1 == fhNorm k) = none := by
+      rw [List.find?_eq_none]
+      intro e he
+      obtain ⟨c, _, hce⟩ := List.mem_map.mp he
+      have : ("Set-Cookie" == fhNorm k) = false := by simpa [FhKind.cookieKey] using hck
+      simp [← hce, this]
+    rw [hcl]
+    by_cases hs : FhKind.response.singles.contains (fhNorm k) = true
+    · simp only [hs, if_true, hnone hs]
+      cases ((fhSingle .response m (fhNorm k)).filter (· != "")) <;> simp
+    · simp only [hs, Bool.false_eq_true, if_false]
+      simp
+
+/-! ### repeated values: what an overwrite leaves -/
+
+/-- an addition with append off: delete, then set (regenerated `addStep`, both outcomes of `Get`) -/
+theorem applyAdd_overwrite (I : HMap M) (m : M) (a : Add) (ha : a.append = false) :
+    applyAdd I m a = I.set (I.del m a.name) a.name a.value := by
+  simp only [applyAdd, addStep_eq, HMap.ops, ha]
+  cases I.get m a.name <;> simp
+
+theorem filter_setFirst (l : List (String × String)) (k v : String) :
+    (setFirst l k v).filter (fun e => e.1 == k) =
+      match l.filter (fun e => e.1 == k) with
+      | [] => [(k, v)]
+      | _ :: r => (k, v) :: r := by
+  induction l with
+  | nil => simp [setFirst]
+  | cons e r ih =>
+    unfold setFirst
+    by_cases he : e.1 = k
+    · simp [he, List.filter_cons]
+    · have hb : (e.1 == k) = false := by simpa using he
+      simp only [hb, Bool.false_eq_true, if_false, List.filter_cons, ih]
+
+theorem filter_filter_ne (l : List (String × String)) (k : String) :
+    (l.filter (fun e => !(e.1 == k))).filter (fun e => e.1 == k) = [] := by
+  rw [List.filter_eq_nil_iff]
+  intro e he
+  simpa using (List.mem_filter.mp he).2
+
+/-- the ordinary lines a fasthttp header holds under a name -/
+def fhLines (m : Fh) (nk : String) : List String := (m.h.filter (fun e => e.1 == nk)).map (·.2)
+
+/-- **overwrite on fasthttp, any number of repeated lines**: after an addition with append off exactly one line of the
+name is left, carrying the configured value (plain names without a dedicated field) -/
+theorem fh_overwrite_one_line (kind : FhKind) (m : Fh) (a : Add) (ha : a.append = false)
+    (h : fhPlain kind a.name = true) (hs : kind.singles.contains (fhNorm a.name) = false) :
+    fhLines (applyAdd (fh kind) m a) (fhNorm a.name) = [a.value] := by
+  rw [applyAdd_overwrite _ _ _ ha]
+  simp only [fh, fhSet, fhLines]
+  rw [fhDel_plain _ _ _ h]
+  simp only [hs, Bool.false_eq_true, if_false]
+  split
+  · rename_i hv
+    have hv' : a.value = "" := by simpa using hv
+    rw [fhRawSet_plain _ _ _ _ h, fhRawSet_plain _ _ _ _ h]
+    simp only [hs, Bool.false_eq_true, if_false, filter_setFirst, filter_filter_ne, hv']
+    rfl
+  · rw [fhRawSet_plain _ _ _ _ h]
+    simp only [hs, Bool.false_eq_true, if_false, filter_setFirst, filter_filter_ne]
+    rfl
+
+/-- **overwrite on net/http.Header**: exactly the configured value is left under the name, whatever list was there -/
+theorem h2_overwrite_one_value (m : H2) (a : Add) (ha : a.append = false) :
+    vals h2 (applyAdd h2 m a) a.name = [a.value] := by
+  rw [applyAdd_overwrite _ _ _ ha]
+  simp only [vals, h2, h2Range, h2Set, h2Del, List.flatMap_cons, List.map_cons, List.map_nil, List.filterMap_append,
+    List.filterMap_cons, List.filterMap_nil, beq_self_eq_true, if_true, List.singleton_append]
+  congr 1
+  rw [List.filterMap_eq_nil_iff]
+  intro e he
+  obtain ⟨x, hx, hxe⟩ := List.mem_flatMap.mp he
+  have hk : ¬ x.1 = h2Norm a.name := by simpa using (List.mem_filter.mp hx).2
+  obtain ⟨v, _, hve⟩ := List.mem_map.mp hxe
+  rw [← hve]
+  simp [hk]
+
+theorem fhNorm_cookie : fhNorm "cookie" = "Cookie" := by decide
+
+/-- **overwrite of the request cookies** (since fix 4b5fb7c1c deletes first): exactly the configured cookies are left —
+`Set` alone would have added them to the client's -/
+theorem fh_cookie_overwrite (m : Fh) (v : String) (hv : v ≠ "") :
+    (applyAdd (fh .request) m ⟨"cookie", v, false⟩).cookies = parseCookies v ∧
+    (applyAdd (fh .request) m ⟨"cookie", v, false⟩).h.filter (fun e => e.1 == "Cookie") = [] := by
+  rw [applyAdd_overwrite _ _ _ rfl]
+  have hb : (v == "") = false := by simpa using hv
+  have hs : FhKind.request.singles.contains "Cookie" = false := by decide
+  have hc : FhKind.request.cookieKey = "Cookie" := rfl
+  simp only [fh, fhSet, hb, Bool.false_eq_true, if_false, fhRawSet, fhDel, fhNorm_cookie, hs, hc, beq_self_eq_true, if_true]
+  unfold fhCollect
+  simp only
+  split
+  · simp [filter_filter_ne]
+  · have : (List.filter (fun e => e.1 == "Cookie") (List.filter (fun e => !(e.1 == "Cookie")) m.h)) = [] := filter_filter_ne _ _
+    simp [this, filter_filter_ne]
+
+/-! ### rules built from configuration -/
+section built
+open MosnVerif.Model.HeaderWiring MosnVerif.Gen.HeaderWiring
+
+theorem evaluate_empty (I : HMap M) (m : M) : evaluate I ⟨[], []⟩ m = m := rfl
+
+theorem evaluateOpt_getHeaderParser (I : HMap M) (a : Option (List Add)) (r : Option (List String)) (m : M) :
+    evaluateOpt I (getHeaderParser a r) m = evaluate I ⟨a.getD [], r.getD []⟩ m := by
+  unfold getHeaderParser
+  by_cases hn : parserIsNil a.isNone r.isNone = true
+  · obtain ⟨ha, hr⟩ := parserIsNil_sound _ _ hn
+    cases a <;> cases r <;> simp_all [evaluateOpt, evaluate_empty]
+  · simp [hn, evaluateOpt]
+
+theorem evaluateOpt_built (I : HMap M) (c : Config) (lv : Level) (d : Dir) (m : M) :
+    evaluateOpt I (builtParser parserWiring c lv d) m = evaluate I ((dirLevels c d).at lv) m := by
+  have hl := lookup_parserWiring lv d
+  unfold lookup at hl
+  unfold builtParser
+  rw [hl]
+  cases lv <;> cases d <;>
+    simp [diagonalRow, evaluateOpt_getHeaderParser, Config.at, LevelCfg.adds, LevelCfg.removes, dirLevels, Levels.at]
+
+/-- on every protocol map: the rule built from configuration applies exactly that direction's mutations, level by level -/
+theorem finalizeBuilt_eq (I : HMap M) (c : Config) (d : Dir) (m : M) :
+    finalizeBuilt I c d m = finalize I (orderOf d) (dirLevels c d) m := by
+  unfold finalizeBuilt finalize
+  generalize orderOf d = order
+  induction order generalizing m with
+  | nil => rfl
+  | cons lv r ih => simp only [List.foldl_cons]; rw [evaluateOpt_built, ih]
+
+theorem orderOf_eq (d : Dir) : orderOf d = [.route, .vhost, .router] := by
+  cases d <;> decide
+
+end built
+
 end MosnVerif.Model.HeaderMaps
